@@ -16,6 +16,16 @@ HERE = os.path.dirname(os.path.dirname(os.path.abspath(__file__)))
 def apply_edits(src_dir, dst_dir, edits):
     """edits: [(file, old, new)] exact-string replacements, each old must occur exactly once.  Returns None or a reason for skipping."""
     shutil.copytree(os.path.join(src_dir, 'miros'), os.path.join(dst_dir, 'miros'), ignore=shutil.ignore_patterns('__pycache__'))
+    if isinstance(edits, str) and edits.startswith('patch:'):
+        # an independently seeded change kept under /verif/seeded/<id>/patch.diff
+        pr = subprocess.run(['patch', '-p1', '-s', '-f', '-d', dst_dir, '-i', edits[6:]], capture_output=True, text=True)
+        if pr.returncode != 0:
+            return 'seeded patch does not apply to this tree'
+        return None
+    if isinstance(edits, str):
+        from selftest.transforms import GLOBAL
+        GLOBAL[edits](os.path.join(dst_dir, 'miros'))
+        return None
     for fname, old, new in edits:
         p = os.path.join(dst_dir, 'miros', fname)
         s = open(p, encoding='utf-8').read()
@@ -55,7 +65,21 @@ def run_variant(args):
 def validate(prop, repo=None, jobs=16):
     from selftest.mutants import CORPUS
     repo = repo or os.environ.get('MIROS_VERIF_REPO', '/repo')
-    variants = CORPUS.get(prop, [])
+    variants = list(CORPUS.get(prop, []))
+    # independently seeded breaking changes of this property (see seeded/<id>/meta.json) must be reported
+    import glob
+    import json
+    for mp in sorted(glob.glob(os.path.join(HERE, 'seeded', '*', 'meta.json'))):
+        try:
+            meta = json.load(open(mp))
+        except Exception:
+            continue
+        if meta.get('breaks_property') == prop:
+            variants.append({'id': 'seed-' + meta['id'], 'kind': 'mutant', 'what': 'seeded change: ' + meta.get('needs_to_manifest', '')[:120],
+                             'edits': 'patch:' + os.path.join(os.path.dirname(mp), 'patch.diff')})
+    # two whole-package behaviour-preserving transformations are benign variants of every property
+    variants.append({'id': 'global-reformat', 'kind': 'benign', 'what': 'every file regenerated from its AST (layout, comments, line numbers change)', 'edits': 'reformat'})
+    variants.append({'id': 'global-rename-locals', 'kind': 'benign', 'what': 'every local variable of every function renamed', 'edits': 'rename-locals'})
     work = [(prop, v['id'], v['kind'], v['edits'], repo) for v in variants]
     results = []
     if work:
